@@ -126,12 +126,16 @@ def tol_of(fields_or_mesh):
 def run_c08(ctx):
     from fieldcompare.mesh import (sort, sort_points, sort_cells, strip_orphan_points, merge, extend_space_dimension_to,
                                    CellType)
-    from fieldcompare.mesh._permuted_mesh import PermutedMesh  # public class of the mesh module namespace (re-exported path)
+    try:   # refinement tie by name: the view class is not re-exported by fieldcompare.mesh
+        from fieldcompare.mesh._permuted_mesh import PermutedMesh
+    except Exception as e:  # noqa: BLE001
+        PermutedMesh = None
+        ctx.notes.append(f"refinement tie PermutedMesh skipped (name not found: {e})")
 
     q = ctx.tier == "quick"
     rng = ctx.rng
     # (1) PermutedMesh with EXPLICIT index maps vs the model
-    n1 = 500 if q else 12000
+    n1 = (500 if q else 12000) if PermutedMesh is not None else 0
     exprs, impls, canons = [], [], []
     for _ in range(n1):
         M = G.gen_mesh(rng)
@@ -893,7 +897,11 @@ def structured_variants(rng):
 
 def run_c16(ctx):
     from fieldcompare.mesh import Mesh
-    from fieldcompare.mesh._permuted_mesh import PermutedMesh
+    try:
+        from fieldcompare.mesh._permuted_mesh import PermutedMesh
+    except Exception as e:  # noqa: BLE001
+        PermutedMesh = None
+        ctx.notes.append(f"PermutedMesh views skipped (name not found: {e})")
     q = ctx.tier == "quick"
     rng = ctx.rng
     n = 700 if q else 20000
@@ -942,7 +950,7 @@ def run_c16(ctx):
             with quiet():
                 warnings.simplefilter("ignore")
                 a, b = G.to_fieldcompare(A).domain, G.to_fieldcompare(B).domain
-                if rng.random() < 0.3:
+                if rng.random() < 0.3 and PermutedMesh is not None:
                     a = PermutedMesh(a)
                 for name, x, y in (("ab", a, b), ("ba", b, a)):
                     try:
